@@ -638,6 +638,10 @@ class MultiOrigin(Origin):
         if len(self.origins) < 2:
             raise ValueError("MultiOrigin must have at least two origin")
 
+        # Always store a tuple: equality (and thus serialization round trip)
+        # must not depend on the kind of sequence the origins were given in
+        object.__setattr__(self, "origins", tuple(self.origins))
+
         if all(origin.source == self.origins[0].source for origin in self.origins[1:]):
             object.__setattr__(self, "source", self.origins[0].source)
         else:
